@@ -1,9 +1,10 @@
 """C45 — profiling and tracing events are balanced and well-nested (structural clauses of event emission)."""
-from ..rules import pC45
+from ..rules import pC45, sC45
 
 ID = 'C45'
 TECHNIQUE = ('path-sensitive forward dataflow over the code-generating methods (three-valued evaluation of the tracing / is_terminator tests, event sequences split into '
-             'success, error and common-tail segments of the generated C function and by the emitted #if/#else lines); configuration-matrix evaluation of the '
+             'success, error and common-tail segments of the generated C function and by the emitted #if/#else lines); prime implicants of the path-sensitive decision function '
+             '"return label reached without a return event" over normalised atomic tests; configuration-matrix evaluation of the '
              'preprocessor conditions around the Profile.c macros; table agreement of guard event, state slot and fired event in the sys.monitoring block')
 DECIDES = ('C45-GUARD: every put_trace_* call and every raw __Pyx_Trace*/__Pyx_PyMonitoring_*/__Pyx_TurnOffSysMonitoring* emission in Cython/Compiler is dominated by a test '
            'that implies profile or linetrace (is_tracing(), directives[...] or a local alias of them). '
@@ -13,6 +14,9 @@ DECIDES = ('C45-GUARD: every put_trace_* call and every raw __Pyx_Trace*/__Pyx_P
            'unwind/return event, which is the unwind event under sys.monitoring, followed by put_trace_exit; in YieldExprNode the yield event precedes the emitted C return and '
            'the resume event follows the resume label, one of each. '
            'C45-RET: a node that jumps to the return label and reports the return event itself (ReturnStatNode) does so on every path on which tracing may be enabled. '
+           'C45-RETCOND: the decision function "ReturnStatNode reaches the return label without put_trace_return" over the non-tracing tests of the method (ifs normalised to '
+           'atomic tests, single-assignment locals substituted, tracing tests fixed to profile / linetrace / both) has no prime implicant other than the recorded K10 condition '
+           '(self.in_parallel): every further suppressing condition (generator, bare return, nogil, an early jump ...) is its own construct. '
            'C45-M2: every trace macro the compiler emits (names and arities extracted path-sensitively from CCodeWriter.put_trace_* that are called, and from raw emissions) has '
            'exactly one definition in each of the 8 configurations of CYTHON_PROFILE x CYTHON_TRACE x CYTHON_USE_SYS_MONITORING, with the emitted arity (aliases followed). '
            'C45-EVT: __Pyx_Monitoring_Event_Index and __Pyx_MonitoringEventTypes are aligned position by position; in every sys.monitoring macro/helper the event named by '
@@ -59,7 +63,16 @@ MUTATIONS = [
     ('Cython/Compiler/Nodes.py', 'FIX of finding 1: remove `not self.in_parallel and` in ReturnStatNode', 'C45-RET goes silent'),
     ('Cython/Utility/Profile.c', 'FIX of finding 2: __Pyx_TraceYield fires through slot PY_YIELD', 'C45-EVT goes silent'),
 ]
+MUTATIONS += [
+    ('Cython/Compiler/Nodes.py', 'seed C45a: `if self.in_generator and value is None: pass / elif <old test>:` around put_trace_return', 'C45-RETCOND ...:no-event-when:self.in_generator & value is None'),
+    ('Cython/Compiler/Nodes.py', 'ReturnStatNode: `not self.in_parallel and code.funcstate.gil_owned and (...)`', 'C45-RETCOND ...:no-event-when:not (code.funcstate.gil_owned)'),
+    ('Cython/Compiler/Nodes.py', 'ReturnStatNode: `not self.in_parallel and self.value is not None and (...)`', 'C45-RETCOND ...:no-event-when:not (self.value is not None)'),
+    ('Cython/Compiler/Nodes.py', 'ReturnStatNode: `if self.return_type.is_void: code.put_goto(code.return_label); return` before the event', 'C45-RETCOND ...:no-event-when:self.return_type.is_void'),
+    ('Cython/Compiler/Nodes.py', "ReturnStatNode: event only under directives['profile']", 'C45-RETCOND ...:no-event-when:always (configuration linetrace)'),
+]
 SILENT_EDITS = [   # behaviour-preserving, no new violation
+    'ReturnStatNode: `tracing_on = profile or linetrace; if not (self.in_parallel or not tracing_on):` (De Morgan + local)  [C45-RETCOND]',
+    'ReturnStatNode: `par = self.in_parallel; if par: pass / elif code.is_tracing():`  [C45-RETCOND]',
     'ReraiseStatNode: `code.is_tracing()` -> `directives["profile"] or directives["linetrace"]`',
     'swap two #define lines of the no-op block; swap PY_RESUME/PY_YIELD consistently in enum AND event type table',
     'GeneratorBodyDefNode: `is_term = self.body.is_terminator; if tracing and not is_term:`',
@@ -76,4 +89,4 @@ SILENT_EDITS = [   # behaviour-preserving, no new violation
 
 
 def run(ctx):
-    return [pC45.rule_guard(ctx), pC45.rule_pair(ctx), pC45.rule_return_stat(ctx), pC45.rule_macros(ctx), pC45.rule_events(ctx)]
+    return [pC45.rule_guard(ctx), pC45.rule_pair(ctx), sC45.rule_return_conditions(ctx), pC45.rule_macros(ctx), pC45.rule_events(ctx)]
